@@ -60,6 +60,9 @@ type tapListener struct {
 	limit int
 	open  int
 	room  *sync.Cond
+	// ownCloseErr != nil: once closed, Accept reports the closure with this error of
+	// the listener's own instead of net.ErrClosed (a yamux session, gRPC bufconn, ...)
+	ownCloseErr error
 }
 
 // countedConn tells the tap when the connection is closed (once).
@@ -104,6 +107,8 @@ func (t *tapListener) Accept() (net.Conn, error) {
 		// (bookkeeping only: the connection itself is handed on untouched)
 		t.last[goid()] = fmt.Sprintf("%s#%d", c.RemoteAddr().String(), t.accepted)
 		t.mu.Unlock()
+	} else if t.ownCloseErr != nil && errors.Is(err, net.ErrClosed) {
+		return nil, t.ownCloseErr
 	}
 	return c, err
 }
@@ -143,6 +148,9 @@ type RigConfig struct {
 	Manual    bool // do not start accept loops (the caller drives Accept, e.g. a SplitListener)
 	// MaxOpen > 0: the base listener admits at most that many open connections at a time
 	MaxOpen int
+	// OwnCloseError: once closed, the base listener's Accept fails with an error of
+	// its own ("session shutdown") rather than net.ErrClosed
+	OwnCloseError bool
 }
 
 // Rig is a loopback listener with the intercepting listener on top and accept
@@ -189,6 +197,9 @@ func NewRig(w *World, cfg RigConfig) *Rig {
 	}
 	r.tap = &tapListener{Listener: base, last: map[int64]string{}, limit: cfg.MaxOpen}
 	r.tap.room = sync.NewCond(&r.tap.mu)
+	if cfg.OwnCloseError {
+		r.tap.ownCloseErr = errors.New("session shutdown")
+	}
 	opts := cfg.Options
 	if opts == nil {
 		opts = w.O()
